@@ -9,7 +9,7 @@ CFG = {
         "shoelace_eq_textbook", "shoelace_reverse", "shoelace_rotate", "shoelace_close",
         "centroidNum_reverse", "centroidNum_rotate", "centroidNum_close", "measure_spelling",
         "C03_area", "C03_marea",
-        "C03_centroid", "C03_centroid_invariant", "C03_centroid_true",
+        "C03_centroid", "C03_centroid_invariant", "C03_centroid_true", "C03_centroid_valid", "C03_centroid_bbox_partial",
         "op_agrees_area", "op_agrees_centroid", "op_centroid_unclosed_differs", "C03_mcentroid_unfixed_wrong",
         "C03_mcentroid_ring", "C03_mcentroid_spec_invariant", "C03_mcentroid",
         "distPointToSegment_min", "C03_length", "C03_length_multi", "C03_distance", "C03_distance_multi",
